@@ -322,9 +322,19 @@ class GenerateWasmVisitor(Visitor.DefaultVisitor):
 
         ctx.SetReferenceToLocalMap(valueReferenceToLocalMap)
 
+        lastInstruction = None
         for basicBlock in function.BasicBlocks:
             for instruction in basicBlock.Instructions:
                 self.v_Visit(instruction, ctx)
+                lastInstruction = instruction
+
+        # A function with a result must not reach its end without one
+        if not function.Type.ReturnType.IsVoid() and not isinstance(
+            lastInstruction, LinearIR.ReturnInstruction
+        ):
+            c.AddInstruction(
+                WebAssembly.Instruction(WebAssembly.opcodes["unreachable"])
+            )
 
         ctx.OnLeaveFunction()
 
